@@ -9,7 +9,7 @@ From Coq Require Import List String Bool ZArith Arith.
 From SFC.Base Require Import Res Str.
 From SFC.Gen Require Import Fx Zone.
 From SFC.GenAsset Require Import Weighting.
-From SFC.GenMain Require Import Program.
+From SFC.GenMain2 Require Import Program.
 Import ListNotations.
 Local Open Scope string_scope.
 
